@@ -641,3 +641,20 @@ func (e *vhgEnv) stop(d time.Duration) bool {
 	}
 	return ok
 }
+
+// vhgDefuse removes the finalizer the p9 client puts on its files (it clunks a dropped file whenever the
+// garbage collector gets to it): a Tclunk must not appear at a random moment inside an observation window.
+func vhgDefuse(fs ...File) {
+	for _, f := range fs {
+		if cf, ok := f.(*clientFile); ok && cf != nil {
+			runtime.SetFinalizer(cf, nil)
+		}
+	}
+}
+
+// vhgAttach attaches and defuses the root file.
+func vhgAttach(c *Client) (File, error) {
+	f, err := c.Attach("")
+	vhgDefuse(f)
+	return f, err
+}
